@@ -142,7 +142,7 @@ def pat_canon(p, ren=None):
         if "lit" in p:
             return ("-" if p.get("neg") else "") + lit_str(p["lit"])
         if p.get("variant"):
-            return "%s::%s" % (last_seg(p.get("adt", "")), p["variant"])
+            return adt_variant_name(p)
         if "val" in p:
             return "MAX" if p["val"] == U64MAX else last_seg(p.get("def", "?"))
         return last_seg(p.get("def", p.get("text", "?")))
